@@ -356,3 +356,10 @@ def idle_then_die(mw=1, timeout=0.05):
     return P(f"idle-then-die-w{mw}", pool(max_workers=mw, timeout=timeout),
              [NEW, sub("a", "ok", 1), ["result", "a"], ["sleep", 0.2], sub("d", "die"), WAIT,
               ["submit_expect", "z"], shutdown(True)])
+
+
+def submit_cancel_shutdown(mw=1, wait=True):
+    """F18 shape: a future cancelled before the manager dequeued it is the only pending item."""
+    return P(f"submit-cancel-shutdown-w{mw}-{wait}", pool(max_workers=mw),
+             [NEW, sub("a", "ok", 1), ["result", "a"], sub("b", "ok", 2), ["cancel", "b"],
+              shutdown(wait)] + ([] if wait else [WAIT]))
